@@ -54,6 +54,8 @@ func sharedSpec(cfg fw.Config, rec *fw.Rec, round int) {
 	// make sure the named features are present
 	a.Nodes["start"] = &ref.ANode{Branching: &ref.ABranching{Type: "message", Branches: []*ref.ABranch{
 		{HasPattern: true, Pattern: map[string]interface{}{"?prop": map[string]interface{}{"deep": "?d"}}, Target: "n1"},
+		{HasPattern: true, Pattern: map[string]interface{}{"l": []interface{}{"?first", "zz"}}, Target: "n1"},
+		{HasPattern: true, Pattern: map[string]interface{}{"l": []interface{}{"?e", map[string]interface{}{"deep": "?d"}, "p"}}, Target: "n2"},
 		{HasPattern: true, Pattern: map[string]interface{}{"k": "?<lim"}, Target: "@t"},
 		{HasPattern: true, Pattern: map[string]interface{}{"uid": "?u"}, Guard: &ref.Prog{Ops: []ref.Op{{Op: "inc", K: "n"}, {Op: "del", K: "cfg!"}}, Ret: "cond", CondKey: "a"}, Target: "n1"},
 		{Target: "n2"},
